@@ -119,6 +119,11 @@ def compare(src, data, max_steps=6000):
             return "engine raised %s(%s), ECMAScript completes with %s" % (eout[1], eout[2], show_snap(rout[1]))
         if not snap_equal(eout[1], rout[1]):
             return "completion value: engine %s, ECMAScript %s" % (show_snap(eout[1]), show_snap(rout[1]))
+        vm = _ctx._last_vm
+        if len(vm.stack) != 0 or len(vm.exception_handlers) != 0 or len(vm.call_stack) != 0:
+            # M-depth at exit: nothing may be left behind by any exit path taken on the way
+            return "after the program the interpreter still holds %d operands, %d exception handlers, %d frames" % (
+                len(vm.stack), len(vm.exception_handlers), len(vm.call_stack))
         return True
     # reference throws
     if eout[0] != "throw":
